@@ -45,6 +45,9 @@ func (v HV) isContainer() bool { return v.K == 'a' || v.K == 'o' }
 type Heap struct {
 	Vars  map[string]*HCell
 	Names []string // variables + "$"
+	// witnesses of known findings switch the corresponding generator exclusion off
+	allowAliasedPad bool
+	allowMethodKeys bool
 }
 
 func (h *Heap) cell(name string) *HCell {
@@ -353,7 +356,7 @@ func (h *Heap) resolveForWrite(p HPath) (*HCell, error) {
 			if s.IsIdx {
 				return nil, errUnsupported{"numeric index on an object"}
 			}
-			if heapMethodNames[s.Key] {
+			if (heapMethodNames[s.Key] && !h.allowMethodKeys) {
 				return nil, errUnsupported{"method-named key (known finding K3)"}
 			}
 			m, ok := v.Obj.M[s.Key]
@@ -375,7 +378,7 @@ func (h *Heap) resolveForWrite(p HPath) (*HCell, error) {
 				}
 			}
 			if idx >= n {
-				if h.arrRefs(v.Arr) > 1 {
+				if h.arrRefs(v.Arr) > 1 && !h.allowAliasedPad {
 					return nil, errUnsupported{"length change on an array reachable through two or more cells (known finding K1)"}
 				}
 				for k := n; k <= idx; k++ {
@@ -404,7 +407,7 @@ func (h *Heap) prevalidateWrite(p HPath) error {
 			if s.IsIdx && s.Idx < 0 {
 				return errUnsupported{"negative index into a fresh array"}
 			}
-			if !s.IsIdx && heapMethodNames[s.Key] {
+			if !s.IsIdx && (heapMethodNames[s.Key] && !h.allowMethodKeys) {
 				return errUnsupported{"method-named key (known finding K3)"}
 			}
 			continue
@@ -414,7 +417,7 @@ func (h *Heap) prevalidateWrite(p HPath) error {
 			if s.IsIdx {
 				return errUnsupported{"numeric index on an object"}
 			}
-			if heapMethodNames[s.Key] {
+			if (heapMethodNames[s.Key] && !h.allowMethodKeys) {
 				return errUnsupported{"method-named key (known finding K3)"}
 			}
 			m, ok := v.Obj.M[s.Key]
@@ -436,7 +439,7 @@ func (h *Heap) prevalidateWrite(p HPath) error {
 				}
 			}
 			if idx >= n {
-				if h.arrRefs(v.Arr) > 1 {
+				if h.arrRefs(v.Arr) > 1 && !h.allowAliasedPad {
 					return errUnsupported{"length change on an array reachable through two or more cells (known finding K1)"}
 				}
 				if idx > 40 {
@@ -727,6 +730,9 @@ type HeapCase struct {
 	Doc  string   `json:"doc"` // the input document (one JSON object)
 	Vars []string `json:"vars"`
 	Ops  []HOp    `json:"ops"`
+	// only set in the pinned witnesses of known findings K1 / K3
+	AllowAliasedPad bool `json:"allow_aliased_pad,omitempty"`
+	AllowMethodKeys bool `json:"allow_method_keys,omitempty"`
 }
 
 func (c *HeapCase) dumpStmt() string {
@@ -878,7 +884,7 @@ func (c *HeapCase) newHeap() (*Heap, bool) {
 	if r.Status != RefClean || len(r.Values) != 1 || r.Values[0].V.Kind != 'o' {
 		return nil, false
 	}
-	h := &Heap{Vars: map[string]*HCell{}}
+	h := &Heap{Vars: map[string]*HCell{}, allowAliasedPad: c.AllowAliasedPad, allowMethodKeys: c.AllowMethodKeys}
 	h.Names = append(append([]string{}, c.Vars...), "fe", "$")
 	h.cell("$").V = fromJVal(r.Values[0].V)
 	return h, true
